@@ -92,6 +92,21 @@ CHECKS = {
              'from the source. Global mean = S/4 is a quadrature statement and is a labelled test only.',
         note=TB + 'Translator harness/gen/consts_c20.py (reads module constants and dataclass defaults). sin/cos/exp/log are external to the executable model (libm at run time, Real.* in proofs).',
         design='6/C20'),
+    'C14': dict(
+        technique='Lean 4 theorems (induction over step counts, nesting depth and input lists, for arbitrary state types) about an '
+                  'executable model of the stepping / scan combinators of time_integration.py, tied to the code by exact integer-valued '
+                  'differential correspondence with step functions drawn from a small DSL',
+        text='Machine-checked proof for every step function, state type and split: step_with_filters folds the filters left to right '
+             'with the pre-step state as first argument; repeated fn n = fn^[n]; trajectory_from_step returns frame k = post(f^[(k or k+1)*inner] x), '
+             'final carry f^[outer*inner] x, for every (outer, inner, start_with_input), and any (outer, inner) trajectory is the sub-sampling of the '
+             '(outer*inner, 1) one; nested_checkpoint_scan equals the flat scan for every admissible factorisation (arrays and pytrees), any two '
+             'factorisations agree, and the accepted calls are characterised exactly (length mismatch ValueError, reshape mismatch TypeError, empty '
+             'lengths IndexError, zero outer length ValueError: matching the real error kinds); accumulate_repeated = sum_k w_k step^[k+1]; the DFI '
+             'weights are normalised, Lanczos weights are >= 0 with non-zero total for c >= T > 0, and digital_filter_initialization returns every '
+             'state that is steady for the forward and the time-reversed filtered steps; TimeReversedImExODE is an involution. Correspondence: '
+             'every ordered factorisation of every length <= 24 (quick) / <= 360 (thorough), all 5x5x2 small trajectory splits, malformed nestings.',
+        note=TB + 'jax.lax.scan and jax.checkpoint are modelled as the sequential loop / identity on values (gradients of nested vs flat scan are compared by probes only).',
+        design='6/C14'),
 }
 
 NOT_YET = {
